@@ -209,7 +209,7 @@ _W3 = {
     "C05": " Third-wave additions: fields are added in one to three stages (Add or AddAll), the builder being asked for requests between the stages.",
     "C07": " Third-wave additions: idle gaps of up to 1.5 x the read timeout between the calls of a sequence.",
     "C08": (" Third-wave additions: contexts that expire by their own deadline; a read-timeout error reported before the read timeout can have elapsed is a violation (premature_timeout); "
-            "follow-up calls after a faulted call on a transport that keeps dripping bytes (each call of a sequence is bounded separately); oversize replies of which only the first 1-14 bytes are genuine, the flood arriving in a later read."),
+            "follow-up calls after a faulted call on a transport that keeps dripping bytes (each call of a sequence is bounded separately); oversize replies of which only the first 1-14 bytes are genuine, the flood arriving in a later read; a connection that refuses the write deadline (network clients); a Flush that fails after the complete reply (serial client); a call that ends at the cancel instant with no transport event to explain it must report the context's error."),
     "C12": " Third-wave additions: call sequences on one client (good and corrupted replies mixed), end-of-stream right after a corrupted reply, hooks optionally installed, read-server-id replies up to 256 bytes.",
     "C13": " Third-wave additions: hand-built BuilderRequest.Fields containing coil fields at any position; the caller's field list is compared with its state before the call.",
     "C14": (" Third-wave additions: the serial port optionally implements Flusher (Flush discards what is buffered and is itself a scheduling point); "
